@@ -438,6 +438,10 @@ def pointOut (xy : Nat × Nat) : String :=
 
 def gOut (sat : Bool) (out : String) : String := s!"sat={boolStr sat} out={out}"
 
+/-- an element-valued gadget result; with `post=enc` also the encoding the compress gadget derives from it -/
+def finOut (args : List String) (xy : Nat × Nat) : String :=
+  pointOut xy ++ (if kvGet args "post" == some "enc" then ";enc=" ++ feHex fqP (R1cs.compress xy.1 xy.2 none).2 else "")
+
 def execGadget (op : String) (args : List String) : String :=
   let hints := (kvAll args "hint").filterMap parseHint
   let h0 : R1cs.Hint := hints.headD none
@@ -465,15 +469,15 @@ def execGadget (op : String) (args : List String) : String :=
       | some xy => gOut true (pointOut xy)
       | none => "bad-elem"
   | "add" | "add_ref" | "add_asg" | "add_const" | "add_const_asg" => match elemArg args "a", elemArg args "b" with
-      | some a, some b => gOut (C17.onCurve a.1 a.2 && C17.onCurve b.1 b.2) (pointOut (Ext.addAffine a b))
+      | some a, some b => gOut (C17.onCurve a.1 a.2 && C17.onCurve b.1 b.2) (finOut args (Ext.addAffine a b))
       | _, _ => "bad-elem"
   | "sub" | "sub_ref" | "sub_asg" | "sub_const" | "sub_const_asg" => match elemArg args "a", elemArg args "b" with
-      | some a, some b => gOut (C17.onCurve a.1 a.2 && C17.onCurve b.1 b.2) (pointOut (Ext.addAffine a (fneg q b.1, b.2)))
+      | some a, some b => gOut (C17.onCurve a.1 a.2 && C17.onCurve b.1 b.2) (finOut args (Ext.addAffine a (fneg q b.1, b.2)))
       | _, _ => "bad-elem"
   | "neg" => match elemArg args "a" with
-      | some a => gOut (C17.onCurve a.1 a.2) (pointOut (fneg q a.1, a.2)) | none => "bad-elem"
+      | some a => gOut (C17.onCurve a.1 a.2) (finOut args (fneg q a.1, a.2)) | none => "bad-elem"
   | "dbl" => match elemArg args "a" with
-      | some a => gOut (C17.onCurve a.1 a.2) (pointOut (Ext.addAffine a a)) | none => "bad-elem"
+      | some a => gOut (C17.onCurve a.1 a.2) (finOut args (Ext.addAffine a a)) | none => "bad-elem"
   | "iseq" => match elemArg args "a", elemArg args "b" with
       | some a, some b => gOut (C17.onCurve a.1 a.2 && C17.onCurve b.1 b.2) (boolStr (R1cs.isEq a b)) | _, _ => "bad-elem"
   | "enforce_eq" => match elemArg args "a", elemArg args "b" with
@@ -481,11 +485,11 @@ def execGadget (op : String) (args : List String) : String :=
   | "enforce_neq" => match elemArg args "a", elemArg args "b" with
       | some a, some b => gOut (C17.onCurve a.1 a.2 && C17.onCurve b.1 b.2 && !R1cs.isEq a b) "-" | _, _ => "bad-elem"
   | "select" => match elemArg args "a", elemArg args "b" with
-      | some a, some b => gOut (C17.onCurve a.1 a.2 && C17.onCurve b.1 b.2) (pointOut (if kvGet args "c" == some "1" then a else b))
+      | some a, some b => gOut (C17.onCurve a.1 a.2 && C17.onCurve b.1 b.2) (finOut args (if kvGet args "c" == some "1" then a else b))
       | _, _ => "bad-elem"
   | "scalarmul" => match elemArg args "a", kvGet args "bits" with
       | some a, some bits =>
-        gOut (C17.onCurve a.1 a.2) (pointOut (R1cs.scalarMulLe (bits.toList.map (· == '1')) (0, 1) a))
+        gOut (C17.onCurve a.1 a.2) (finOut args (R1cs.scalarMulLe (bits.toList.map (· == '1')) (0, 1) a))
       | _, _ => "bad-elem"
   | "lazy" =>
     let ops := ((kvGet args "ops").getD "").splitOn "," |>.filter (· != "")
